@@ -3,7 +3,8 @@
 # Files listed in _CoqProject that do not exist yet (work in progress) are skipped; `make -k` keeps
 # going past a file that fails so that every property whose closure builds is usable - each check
 # rebuilds its own closure (harness/lib.py ensure_static_build) and reports a failure there.
-cd /verif/coq || exit 2
+HERE="$(cd "$(dirname "${BASH_SOURCE[0]}")/.." && pwd)"
+cd "$HERE/coq" || exit 2
 grep -v '\.v$' _CoqProject > _CoqProject.build
 for f in $(grep '\.v$' _CoqProject); do [ -f "$f" ] && echo "$f" >> _CoqProject.build; done
 coq_makefile -f _CoqProject.build -o Makefile || exit 2
